@@ -107,6 +107,21 @@ def impl_dec(s):
     return canon_num(v)
 
 
+def deadline_timestamp(d):
+    """the absolute time a Deadline stands for: found by role (the one numeric instance attribute), whatever the
+    private attribute is called"""
+    vals = []
+    for src in (getattr(d, '__dict__', {}),):
+        vals.extend(v for v in src.values() if isinstance(v, (int, float)) and not isinstance(v, bool))
+    for n in getattr(type(d), '__slots__', ()) or ():
+        v = getattr(d, n, None)
+        if isinstance(v, (int, float)) and not isinstance(v, bool):
+            vals.append(v)
+    if len(vals) == 1:
+        return vals[0]
+    return getattr(d, '_timestamp')
+
+
 def impl_hdr(loop, now, hs):
     from grpclib.metadata import Deadline
     loop._vtime = now            # time.monotonic() is the virtual clock: the timestamp is exact
@@ -120,7 +135,7 @@ def impl_hdr(loop, now, hs):
         return ('exc', type(e).__name__)
     if d is None:
         return ('none',)
-    ts = d._timestamp
+    ts = deadline_timestamp(d)
     if not isinstance(ts, float):
         return ('exc', 'type:' + type(ts).__name__)
     return ('ok', f2bits(ts))
